@@ -280,7 +280,9 @@ def make_plug(ctx, cid, bad, tdmode):
         except BaseException:  # pylint: disable=broad-except
           pass
 
-  return type('Plug_%s' % cid, (base_plugs.BasePlug,),
+  # distinct plug classes may carry the same module and class name (made by a factory, nested in
+  # different classes, reloaded): the classes, not their names, identify a plug
+  return type('Plug_%s' % ('made' if cid in ('x', 'z') else cid), (base_plugs.BasePlug,),
               dict(__init__=__init__, tearDown=tearDown))
 
 
@@ -336,10 +338,16 @@ def build_node(ctx, node, plugcls, timeout_s=None):
     return phase_branches.BranchSequence(_cond(node['cond']), *[rec(c) for c in node['ch']],
                                          name=node['name'])
   if k == 'group':
-    return htf.PhaseGroup(setup=[rec(c) for c in node['setup']] or None,
-                          main=[rec(c) for c in node['main']] or None,
-                          teardown=[rec(c) for c in node['tdn']] or None,
-                          name=node['name'])
+    def part(children, salt):
+      built = [rec(c) for c in children]
+      # a part consisting of one collection may be handed over as that collection itself
+      # (PhaseGroup(main=Subtest(...)) instead of main=[Subtest(...)]): the same tree
+      if len(children) == 1 and children[0]['k'] in ('subtest', 'branch', 'seq') and \
+          (len(node['name']) + len(children[0]['name']) + salt) % 2 == 0:
+        return built[0]
+      return built or None
+    return htf.PhaseGroup(setup=part(node['setup'], 0), main=part(node['main'], 1),
+                          teardown=part(node['tdn'], 0), name=node['name'])
   if k == 'ckpt':
     action = htf.PhaseResult[node['action']]
     if node['kind'] == 'DIAG':
